@@ -311,6 +311,135 @@ def check(ctx):
     # (3) deep random behaviours, 2 fields, larger values
     replay_sim(ctx, "simulate-nf2", consts(3, 2, 30), 3000 if thorough else 500, 40)
     replay_sim(ctx, "simulate-nf1", consts(3, 1, 30), 3000 if thorough else 300, 40)
+    check_threads(ctx, thorough)
+
+
+# ---------------------------------------------------------------------------
+# two real threads under the line-level scheduler, judged for linearizability
+# ---------------------------------------------------------------------------
+
+def unscale(name, tup, nf):
+    """real tuple -> model tuple (exact division by the column scales)"""
+    out = [None] * nf
+    for j, v in enumerate(tup):
+        s = SCALES[j % len(SCALES)] * (512 if name == "disk" and j in (2, 3) else 1)
+        q, r = divmod(v, s)
+        f = j % nf
+        if r or (out[f] is not None and out[f] != q):
+            return "garbled:%r" % (tup,)
+        out[f] = q
+    return out
+
+
+def thread_chunk(job):
+    from harness import sched
+    seed, bound, limit = job
+    w, ps = template()
+    from psutil import _common
+    rnd = random.Random(seed)
+    traces = []
+    state = {}
+    name = "net" if seed % 2 == 0 else "disk"
+    fn = ps.net_io_counters if name == "net" else ps.disk_io_counters
+    perkw = "pernic" if name == "net" else "perdisk"
+    keys = ["e0", "e1"] if name == "net" else ["sda", "sda1"]
+    progs = [
+        ([("call", True)], [("cache_clear",)]),
+        ([("call", True), ("call", True)], [("cache_clear",), ("call", True)]),
+        ([("call", True)], [("call", True)]),
+    ][seed % 3]
+
+    def make_bodies(run):
+        fn.cache_clear()
+        ad = Adapter(w, ps, 1)
+        pre = []
+        for val in ([1], [0], [1]):      # wrap history: 1 -> 0 -> 1 (offset 1 accumulated)
+            for k in keys:
+                ad.raw[name][k] = list(val)
+                pre.append({"op": "k_set", "name": name, "key": k, "val": list(val)})
+            ad.sync()
+            got = fn(**{perkw: True, "nowrap": True})
+            pre.append({"op": "call", "name": name, "nowrap": True, "form": "per", "empty": False,
+                        "res": {k: unscale(name, tuple(v), 1) for k, v in got.items()}})
+        for k in keys:
+            ad.raw[name][k] = [0]
+            pre.append({"op": "k_set", "name": name, "key": k, "val": [0]})
+        ad.sync()
+        _common._wn.lock = sched.CoopLock(run)
+        logs = {"A": [], "B": []}
+        state["pre"], state["logs"] = pre, logs
+
+        def body(tn, ops):
+            def f():
+                for op in ops:
+                    if op[0] == "cache_clear":
+                        fn.cache_clear()
+                        logs[tn].append({"op": "cache_clear", "name": name})
+                    else:
+                        try:
+                            got = fn(**{perkw: True, "nowrap": op[1]})
+                            res = {k: unscale(name, tuple(v), 1) for k, v in got.items()}
+                            logs[tn].append({"op": "call", "name": name, "nowrap": op[1], "form": "per",
+                                             "empty": False, "res": res})
+                        except BaseException as ex:  # noqa: BLE001
+                            logs[tn].append({"op": "call", "name": name, "nowrap": op[1], "form": "per",
+                                             "empty": False, "res": {"exception": [type(ex).__name__]}})
+            return f
+        return [body("A", progs[0]), body("B", progs[1])]
+
+    def on_run(run, plan, err):
+        tr = {"pre": state["pre"], "thr": state["logs"], "plan": plan}
+        if err is not None:
+            tr["deadlock"] = str(err)
+        traces.append(tr)
+
+    sched.explore(make_bodies, ("psutil/_common.py", "psutil/__init__.py"), bound=bound, limit=limit, rnd=rnd, on_run=on_run)
+    import threading
+    _common._wn.lock = threading.Lock()
+    return traces
+
+
+def check_threads(ctx, thorough):
+    jobs = [(ctx.seed * 13 + i, 3 if thorough else 2, 500 if thorough else 120) for i in range(12)]
+    res = forkpool.map_fork(thread_chunk, jobs, timeout=1500)
+    traces = []
+    for st, val in res:
+        if st != "ok":
+            raise core.Machinery("thread driver failed: %s" % (val,))
+        traces.extend(val)
+    for t in [t for t in traces if "deadlock" in t][:2]:
+        ctx.disagree("threads:deadlock", "the two-thread execution did not finish: %s" % t["deadlock"], t)
+    traces = [t for t in traces if "deadlock" not in t]
+    if sum(1 for t in traces if t["plan"]) < 10:
+        raise core.Machinery("vacuity: hardly any pre-empted schedule")
+    d = tlc.scratch()
+    tf = os.path.join(d, "traces.ndjson")
+    with open(tf, "w") as f:
+        for t in traces:
+            f.write(json.dumps({"pre": t["pre"], "thr": t["thr"]}) + "\n")
+    cfg = os.path.join(d, "t.cfg")
+    c = consts(1, 1, 99)
+    tlc.write_cfg(cfg, c, init="TInit", next_="TNext", constraints=["Progress"], postcondition="AllLinearizable")
+    r = tlc.run("WrapNumbersTrace", cfg, workers=1, env={"TRACE_FILE": tf}, timeout=1500)
+    ctx.tlc("threads-linearizability", r)
+    shutil.rmtree(d, ignore_errors=True)
+    ctx.cov["traces_validated_against_impl"] += len(traces)
+    ctx.cov.setdefault("replay", {})["threads"] = {"executions": len(traces),
+                                                   "pre-empted": sum(1 for t in traces if t["plan"])}
+    for t in traces:
+        ctx.case(json.dumps([t["thr"], t["plan"]], sort_keys=True))
+    import re
+    m = re.search(r'<<\s*"REJECTED",\s*(\{.*?\})\s*>>', r.out, re.S)
+    if m:
+        ids = tlc.parse_value(m.group(1))
+        ctx.cov["replay"]["threads"]["rejected"] = len(ids)
+        for i in ids[:3]:
+            t = traces[i - 1]
+            ctx.disagree("threads:not-linearizable",
+                         "no interleaving of the two threads' calls explains the recorded results: A=%s B=%s (plan %s)"
+                         % (json.dumps(t["thr"]["A"])[:300], json.dumps(t["thr"]["B"])[:300], t["plan"]), t)
+    elif r.violated:
+        raise core.Machinery("linearizability run failed: %s" % r.violated)
 
 
 def main(prop, argv):
